@@ -66,9 +66,14 @@ func VH_C01_quorum(h *vrt.H) {
 	reqProposer := vhMembers[h.Choose("reqProposer", 0, 1)]
 	vEpoch, vSeq := h.U64("voteEpoch"), h.U64("voteSequence")
 	// what they signed: either a genuine sign-doc over fields of the harness' choosing, or arbitrary bytes
-	m := h.PickBytes(h.Bool("signedGenuineDoc"),
+	genuine := h.Bool("signedGenuineDoc")
+	m := h.PickBytes(genuine,
 		refSignDoc(chain, h.U64("signedSeq"), h.U64("signedEpoch"), method, vhMembers[h.Choose("signedProposer", 0, 1)], payload),
 		h.Bytes("signedMsg", 32))
+	// an arbitrary message is any 32 bytes other than the correct document (the correct one is
+	// covered by the genuine branch with matching fields; a free value cannot be made to hit
+	// a real SHA-256 output, so that case could not be replayed)
+	h.Assume(h.Either(genuine, !bytes.Equal(m, refSignDoc(chain, seq, epoch, method, rel.Proposer, payload))))
 	sig := h.AggSig(signed, m)
 	if h.Choose("garbageSig", 0, 1) == 1 {
 		sig = h.Bytes("sigBytes", 48)
@@ -81,6 +86,7 @@ func VH_C01_quorum(h *vrt.H) {
 	var seenDoc []byte
 	gotSeq, err := k.VerifyProposal(ctx, req, func(doc []byte) error { seenDoc = doc; return nil })
 	h.NoteBool("accepted", err == nil)
+	h.Log("err", err)
 
 	post, gerr := k.Relayer.Get(ctx)
 	vhMust(gerr)
